@@ -302,7 +302,7 @@ func nestedEmptyClasses(target, patch val.V) []string {
 }
 
 func genMergeDoc(t *rapid.T, target val.V) val.V {
-	p := gen.Profile{MaxDepth: 3}
+	p := gen.Profile{MaxDepth: 3, NastyKeys: gen.Chance(t, "nastyPatchKeys", 25)}
 	switch gen.Int(t, "patchKind", 0, 9) {
 	case 0:
 		return gen.Doc(t, p) // independent: arrays, scalars, null at the root
@@ -331,7 +331,7 @@ func genMergeDoc(t *rapid.T, target val.V) val.V {
 			}
 		}
 		if gen.Chance(t, "newKey", 25) {
-			out[gen.Pick(t, "nk", []string{"a", "b", "c", "new"})] = gen.Pick(t, "nv", []val.V{nil, map[string]val.V{}, 1.0, map[string]val.V{"x": nil}, map[string]val.V{"x": map[string]val.V{}}})
+			out[gen.Pick(t, "nk", []string{"a", "b", "c", "new", "", "-", "1"})] = gen.Pick(t, "nv", []val.V{nil, map[string]val.V{}, 1.0, map[string]val.V{"x": nil}, map[string]val.V{"x": map[string]val.V{}}})
 		}
 		return out
 	}
@@ -339,7 +339,7 @@ func genMergeDoc(t *rapid.T, target val.V) val.V {
 }
 
 func genC12(t *rapid.T) MergeCase {
-	p := gen.Profile{MaxDepth: 3}
+	p := gen.Profile{MaxDepth: 3, NastyKeys: gen.Chance(t, "nasty", 30)}
 	if gen.Chance(t, "deep", 30) {
 		// target and patch share a chain of up to 6 objects with siblings;
 		// the patch side gets nulls and empty objects sprinkled in
@@ -414,3 +414,103 @@ func init() {
 
 func TestC11Random(t *testing.T) { RunRandom(t, "C11", "random", genC11, checkC11) }
 func TestC12Random(t *testing.T) { RunRandom(t, "C12", "random", genC12, checkC12) }
+
+// ---- C12 chain: several merge patches applied one after the other to the
+// document value returned by the previous Patch (no re-parsing in between),
+// against the RFC pseudocode folded over the same patches. After every step
+// a fixed probe patch is applied to a fresh document as well, so that state
+// leaking from one call into later ones shows up.
+
+type MergeChainCase struct {
+	Target  string   `json:"target"`
+	Patches []string `json:"patches"`
+}
+
+func checkC12Chain(c MergeChainCase, r *rec.Rec) error {
+	model, err := val.Parse(c.Target)
+	if err != nil || val.IsVoid(model) {
+		return fmt.Errorf("bad case: %v", err)
+	}
+	node := jdx.NodeText(c.Target)
+	nontrivial := false
+	for i, ptext := range c.Patches {
+		pv, err := val.Parse(ptext)
+		if err != nil || val.IsVoid(pv) {
+			return fmt.Errorf("bad case: %v", err)
+		}
+		_, modelIsObj := model.(map[string]val.V)
+		if po, ok := pv.(map[string]val.V); pv == nil || (ok && len(po) == 0 && !modelIsObj) {
+			r.Class("skipped:root-null-or-{}-patch (D16/D17)")
+			return nil
+		}
+		var d jd.Diff
+		var rerr error
+		if msg, p := jdx.Guard(func() { d, rerr = jd.ReadMergeString(ptext) }); p {
+			return rec.Violated("ReadMergeString panicked: %s", msg)
+		}
+		if rerr != nil {
+			return rec.Violated("step %d: ReadMergeString rejects %s: %v", i, ptext, rerr)
+		}
+		out := jdx.Patch(node, d)
+		if !out.OK() {
+			return rec.Violated("step %d: merge patch %s does not apply to the document from the previous step (%s): %s", i, ptext, val.JSON(model), okWord(out))
+		}
+		node = out.Node
+		model = ref.MergePatch(model, pv)
+		got, err := val.Parse(node.Json())
+		if err != nil {
+			return rec.Violated("step %d: result is not readable JSON: %v", i, err)
+		}
+		if !val.Equal(got, model, val.List) {
+			return rec.Violated("step %d of %v on %s: jd gives %s, folding the RFC 7386 algorithm gives %s", i, c.Patches, c.Target, val.JSON(got), val.JSON(model))
+		}
+		if i > 0 {
+			nontrivial = true
+		}
+		// probe: a fresh read-and-apply must not be influenced by what happened before
+		for _, probe := range [][3]string{
+			{`{"a":1}`, `{"z":{}}`, `{"a":1,"z":{}}`},
+			{`{"z":5}`, `{"z":{"y":{}}}`, `{"z":{"y":{}}}`},
+			{`{}`, `{"p":{},"q":{}}`, `{"p":{},"q":{}}`},
+		} {
+			pd, err := jd.ReadMergeString(probe[1])
+			if err != nil {
+				return rec.Violated("probe patch %s rejected: %v", probe[1], err)
+			}
+			po := jdx.Patch(jdx.NodeText(probe[0]), pd)
+			if !po.OK() || po.Node.Json() != probe[2] {
+				res := okWord(po)
+				if po.OK() {
+					res = po.Node.Json()
+				}
+				return rec.Violated("after step %d of %v on %s: the unrelated merge patch %s applied to a fresh %s gives %s instead of %s (state leaks between calls)", i, c.Patches, c.Target, probe[1], probe[0], res, probe[2])
+			}
+		}
+	}
+	r.Case(fmt.Sprintf("%v", c), nontrivial, fmt.Sprintf("steps=%d", len(c.Patches)))
+	if nontrivial {
+		r.Sample(c)
+	}
+	return nil
+}
+
+func genC12Chain(t *rapid.T) MergeChainCase {
+	p := gen.Profile{MaxDepth: 3, NastyKeys: gen.Chance(t, "nasty", 30)}
+	target := gen.Object(t, p, 0)
+	c := MergeChainCase{Target: val.JSON(target)}
+	model := target
+	n := gen.Int(t, "nPatches", 2, 4)
+	for i := 0; i < n; i++ {
+		pv := genMergeDoc(t, model)
+		if o, ok := pv.(map[string]val.V); !ok || len(o) == 0 || pv == nil {
+			pv = map[string]val.V{gen.Pick(t, "k", []string{"a", "b", "c"}): map[string]val.V{}}
+		}
+		c.Patches = append(c.Patches, val.JSON(pv))
+		model = ref.MergePatch(model, pv)
+	}
+	return c
+}
+
+func init() { Register("C12", "chain", checkC12Chain) }
+
+func TestC12Chain(t *testing.T) { RunRandom(t, "C12", "chain", genC12Chain, checkC12Chain) }
